@@ -1,6 +1,8 @@
 #!/usr/bin/env python3
 """Prints the markdown table of seeded changes for DESIGN.md section 14 from seeded/*/meta.json."""
-import json, glob, re, os
+import json, glob, re, os, sys
+sys.path.insert(0, "/verif")
+from tools_seed_summaries import summary
 strengthened = {
  "C05-1": "missed at first: generators never nested link-in-image-in-link; fragments for nested bracket shapes added (G2/G3)",
  "C10-1": "missed at first: no upper-case tag names of equal length were generated and C10 accepted either spelling of a '<' inside raw HTML under a filter; shared HTML soup generator with upper-case names added and C10 now predicts the filtered bytes exactly (FilterRawRef)",
@@ -23,17 +25,13 @@ strengthened = {
 rows = []
 for d in sorted(glob.glob("/verif/seeded/*/meta.json"), key=lambda p: (p.split("/")[3].split("-")[0], int(p.split("/")[3].split("-")[1]))):
     m = json.load(open(d))
-    notes = m.get("needs_to_manifest", "")
-    # first meaningful line(s)
-    first = ""
-    for l in notes.splitlines():
-        l = l.strip().lstrip("#").strip()
-        if len(l) > 30 and not l.lower().startswith(("seed", "notes", "change", "patch")):
-            first = l; break
-    first = re.sub(r"\s+", " ", first)[:230]
+    first = summary[m["id"]]
+    if m.get("summary") != first:
+        m["summary"] = first
+        json.dump(m, open(d, "w"), indent=1)
     caught = [p for p, c in m["checks"].items() if c["caught"]]
     missed = [p for p, c in m["checks"].items() if not c["caught"]]
     rows.append("| %s | %s | %s | %s | %s |" % (m["id"], m["property"], first.replace("|", "\\|"), ", ".join(caught) or "-", (("not caught by " + ", ".join(missed) + "; ") if missed else "") + strengthened.get(m["id"], "")))
-print("| seed | property | what it is / what it needs to manifest | caught by (quick tier) | notes |")
+print("| seed | property | the change; what an input needs to show it | caught by (quick tier) | notes |")
 print("|---|---|---|---|---|")
 print("\n".join(rows))
